@@ -53,6 +53,8 @@ pub struct Config {
     pub vec_fns: Vec<String>,
     /// method renames `name` -> `new_name` (receiver-independent, checked by rustc in Verus)
     pub method_rename: BTreeMap<String, String>,
+    /// R20 on `Result::map(closure)`: ordinals (same numbering as opt_closures) whose receiver is a Result
+    pub res_closures: BTreeSet<u64>,
     /// R27: `x += e` on the named usize accumulators becomes `x = vx_count_add(x, e)`; the model of `vx_count_add` (prelude/count.rs)
     /// states the machine-arithmetic assumption in one place instead of leaving an overflow obligation nobody can discharge
     pub count_adds: Vec<String>,
@@ -209,6 +211,9 @@ impl Config {
         }
         for k in item["opt_closures"].as_array().cloned().unwrap_or_default() {
             c.opt_closures.insert(k.as_u64().ok_or("opt_closures: bad ordinal")?);
+        }
+        for k in item["res_closures"].as_array().cloned().unwrap_or_default() {
+            c.res_closures.insert(k.as_u64().ok_or("res_closures: bad ordinal")?);
         }
         for k in item["any_to_loop"].as_array().cloned().unwrap_or_default() {
             c.any_to_loop.insert(k.as_u64().ok_or("any_to_loop: bad ordinal")?);
@@ -1235,6 +1240,16 @@ impl<'a> VisitMut for OptPass<'a> {
                     self.seen += 1;
                     let mut body = (*c.body).clone();
                     self.visit_expr_mut(&mut body);
+                    if self.cfg.res_closures.contains(&k) && m == "map" && c.inputs.len() == 1 && !has_return(&c.body) {
+                        // Result::map(closure): its defining match (core::result)
+                        let recv = &mc.receiver;
+                        let pat = match &c.inputs[0] { syn::Pat::Type(pt) => (*pt.pat).clone(), p => p.clone() };
+                        let new: syn::Expr = syn::parse_quote!(match #recv { Ok(#pat) => Ok(#body), Err(__e) => Err(__e) });
+                        *e = new;
+                        self.done += 1;
+                        bump(self.counts, "R20.result_closure_to_match");
+                        return;
+                    }
                     if self.cfg.opt_closures.contains(&k) {
                         if has_return(&c.body) {
                             self.err = Some("unsupported construct: `return`/`?` inside an Option::map closure".into());
@@ -1249,6 +1264,11 @@ impl<'a> VisitMut for OptPass<'a> {
                             ("and_then", 1) => {
                                 let pat = match &c.inputs[0] { syn::Pat::Type(pt) => (*pt.pat).clone(), p => p.clone() };
                                 syn::parse_quote!(match #recv { Some(#pat) => #body, None => None })
+                            }
+                            // Result::map_err(closure): its defining match (core::result)
+                            ("map_err", 1) => {
+                                let pat = match &c.inputs[0] { syn::Pat::Type(pt) => (*pt.pat).clone(), p => p.clone() };
+                                syn::parse_quote!(match #recv { Ok(__v) => Ok(__v), Err(#pat) => Err(#body) })
                             }
                             ("unwrap_or_else", 0) => syn::parse_quote!(match #recv { Some(__v) => __v, None => #body }),
                             ("ok_or_else", 0) => syn::parse_quote!(match #recv { Some(__v) => Ok(__v), None => Err(#body) }),
@@ -2876,13 +2896,13 @@ pub fn apply_to_fn(
         p.visit_block_mut(&mut f.block);
     }
     // R20
-    if !cfg.opt_closures.is_empty() {
+    if !cfg.opt_closures.is_empty() || !cfg.res_closures.is_empty() {
         let mut p = OptPass { cfg, counts, seen: 0, done: 0, err: None };
         p.visit_block_mut(&mut f.block);
         if let Some(e) = p.err {
             return Err(e);
         }
-        if p.done as usize != cfg.opt_closures.len() {
+        if p.done as usize != cfg.opt_closures.len() + cfg.res_closures.len() {
             return Err("lost anchor: an opt_closures ordinal names no closure".into());
         }
     }
